@@ -178,7 +178,3 @@ func cmdReplay(path string, flags map[string]string) int {
 	return 3
 }
 
-func cmdCheck(id string, flags map[string]string) int {
-	fmt.Println("check: not implemented yet")
-	return 3
-}
